@@ -3,6 +3,7 @@ package harness
 import (
 	"flag"
 	"os"
+	"runtime"
 	"strconv"
 	"strings"
 	"testing"
@@ -25,6 +26,7 @@ func TestMain(m *testing.M) {
 		simrt.GoSites = n
 	}
 	flag.Parse()
+	count("processes_with_gomaxprocs_"+strconv.Itoa(runtime.GOMAXPROCS(0)), 1)
 	code := m.Run()
 	writeStats()
 	os.Exit(code)
